@@ -7,9 +7,9 @@ from progprop import replay
 def run(tier):
     import os
     seed = int(os.environ.get('VERIF_SEED', '0') or 0)
-    ts = tmpl.search_bfs() + tmpl.branches()[:4] + tmpl.infinite() + tmpl.random_tree_programs(seed, 24 if tier == 'quick' else 400) + [(n, pr, k, 'multiset', lim, ex) for (n, pr, k, md, lim, ex) in (tmpl.search_dfs() + tmpl.random_dfs_programs(seed + 7, 8 if tier == 'quick' else 100))]
+    ts = tmpl.search_bfs() + tmpl.branches()[:4] + tmpl.infinite() + tmpl.random_tree_programs(seed, 24 if tier == 'quick' else 150) + [(n, pr, k, 'multiset', lim, ex) for (n, pr, k, md, lim, ex) in (tmpl.search_dfs() + tmpl.random_dfs_programs(seed + 7, 8 if tier == 'quick' else 40))]
     return progprop.run('C06', tier, ts, 'c06',
                         'Whole programs (real macro expansion, real interleaving engine) are executed symbolically from MIR; for every feasible '
                         'path (= every equality pattern between the symbolic integer parameters) the multiset of answers of the default '
                         'search is compared with the reference semantics. Besides the hand-written templates, generated programs (random_tree_programs: ==, !=, member, conde / conda / condu / onceo, true / false, '
-                        'proper / improper lists, tuples; 24 in the quick tier, 400 in the thorough tier, generator seeded by VERIF_SEED) are decided the same way. Bounded: the listed program templates, parameters in a small window.')
+                        'proper / improper lists, tuples; 24 in the quick tier, 150 in the thorough tier, generator seeded by VERIF_SEED) are decided the same way. Bounded: the listed program templates, parameters in a small window.')
